@@ -8,5 +8,5 @@ CONSTANTS
   Bug_IntReciprocal = FALSE
   TIER = "quick"
 ACTION_CONSTRAINT Emit
-INVARIANTS LinearOK DefaultOK
+INVARIANTS LinearOK DefaultOK AssemblyOK
 CHECK_DEADLOCK FALSE
